@@ -323,6 +323,10 @@ def run(chk, prog):
                 and "rfm" in A.show(A.call_object(y))]
     inner = [y for y in A.walk(loop["body"]) if y["k"] in ("WhileStmt", "ForStmt", "DoStmt", "CXXForRangeStmt")]
     nested = any(r["id"] in {z["id"] for z in A.walk(i_)} for r in rf_apply for i_ in inner)
+    if not rf_apply:
+        # no direct `rfm->apply()` in the loop body at all: the maps are applied in a form this check does not follow (e.g. through a table of
+        # maps); that is not evidence of a missing application
+        raise AnalysisBroken("main: no direct application of the RF map in the simulation loop (maps applied through an indirection this check does not follow)")
     chk.check(len(rf_apply) == 1 and not nested, "R4", A.loc(mainf, loop), "the RF map is applied exactly once per loop iteration (calls: %d)" % len(rf_apply),
               "main:rfm-apply-per-iteration:%d" % len(rf_apply))
     # laststep not modified after the maps were built
